@@ -1,10 +1,19 @@
-/* C20: LD_PRELOAD shim that makes the n-th close() of a regular file below a directory FAIL THE WAY LINUX DOES:
-   the descriptor is released (the real close runs) and -1/errno is returned to the caller.
+/* C20: LD_PRELOAD shim with two independent fault models.
+
+   (1) C20_CLOSE_FAIL="<n>:<errno>:<dir>" makes the n-th close() of a regular file below a directory FAIL THE WAY
+   LINUX DOES: the descriptor is released (the real close runs) and -1/errno is returned to the caller.
    strace's `inject=close:error=...` skips the syscall instead, which leaves the descriptor open - a state that
-   cannot arise from a real EIO/ENOSPC at close.  C20_CLOSE_FAIL="<n>:<errno>:<dir>"; n<0: every close from |n| on. */
+   cannot arise from a real EIO/ENOSPC at close.  n<0: every close from |n| on.
+
+   (2) C20_XDEV="<dirA>:<dirB>" (both realpath'ed, no ':' inside) emulates TWO FILE SYSTEMS when the machine offers
+   no second writable one: rename()/renameat()/renameat2() whose source lies below one of the two directories and
+   whose target lies below the other fail with EXDEV, exactly as the kernel answers a cross-device rename (no
+   effect on either name).  Used only when vt/props/c20.py finds no directory with another st_dev for $TMPDIR. */
 #define _GNU_SOURCE
 #include <dlfcn.h>
 #include <errno.h>
+#include <fcntl.h>
+#include <limits.h>
 #include <stdio.h>
 #include <stdlib.h>
 #include <string.h>
@@ -12,6 +21,9 @@
 #include <sys/stat.h>
 
 static int (*real_close)(int);
+static int (*real_rename)(const char *, const char *);
+static int (*real_renameat)(int, const char *, int, const char *);
+static int (*real_renameat2)(int, const char *, int, const char *, unsigned int);
 static int count = 0;
 
 int close(int fd) {
@@ -39,4 +51,60 @@ int close(int fd) {
     }
   }
   return real_close(fd);
+}
+
+/* which of the two emulated file systems holds the directory entry `p` (0: neither) */
+static int side(int dirfd, const char *p, const char *a, size_t al, const char *b, size_t bl) {
+  char tmp[PATH_MAX], res[PATH_MAX];
+  const char *parent;
+  if (!p || strlen(p) >= sizeof tmp) return 0;
+  if (p[0] != '/' && dirfd != AT_FDCWD) return 0;       /* relative to a descriptor: not used by the producers */
+  strcpy(tmp, p);
+  char *s = strrchr(tmp, '/');
+  if (!s) parent = ".";
+  else if (s == tmp) parent = "/";
+  else { *s = 0; parent = tmp; }
+  if (!realpath(parent, res)) return 0;
+  size_t rl = strlen(res);
+  if (rl >= al && !strncmp(res, a, al) && (res[al] == 0 || res[al] == '/')) return 1;
+  if (rl >= bl && !strncmp(res, b, bl) && (res[bl] == 0 || res[bl] == '/')) return 2;
+  return 0;
+}
+
+static int cross_device(int fda, const char *pa, int fdb, const char *pb) {
+  const char *spec = getenv("C20_XDEV");
+  if (!spec) return 0;
+  const char *colon = strchr(spec, ':');
+  if (!colon || colon == spec || !colon[1]) return 0;
+  char a[PATH_MAX];
+  size_t al = (size_t)(colon - spec);
+  if (al >= sizeof a) return 0;
+  memcpy(a, spec, al); a[al] = 0;
+  const char *b = colon + 1;
+  size_t bl = strlen(b);
+  int sa = side(fda, pa, a, al, b, bl), sb = side(fdb, pb, a, al, b, bl);
+  if (sa && sb && sa != sb) {
+    if (write(2, "C20SHIM rename EXDEV\n", 21) < 0) {}
+    return 1;
+  }
+  return 0;
+}
+
+int rename(const char *pa, const char *pb) {
+  if (!real_rename) real_rename = (int (*)(const char *, const char *))dlsym(RTLD_NEXT, "rename");
+  if (cross_device(AT_FDCWD, pa, AT_FDCWD, pb)) { errno = EXDEV; return -1; }
+  return real_rename(pa, pb);
+}
+
+int renameat(int fda, const char *pa, int fdb, const char *pb) {
+  if (!real_renameat) real_renameat = (int (*)(int, const char *, int, const char *))dlsym(RTLD_NEXT, "renameat");
+  if (cross_device(fda, pa, fdb, pb)) { errno = EXDEV; return -1; }
+  return real_renameat(fda, pa, fdb, pb);
+}
+
+int renameat2(int fda, const char *pa, int fdb, const char *pb, unsigned int flags) {
+  if (!real_renameat2)
+    real_renameat2 = (int (*)(int, const char *, int, const char *, unsigned int))dlsym(RTLD_NEXT, "renameat2");
+  if (cross_device(fda, pa, fdb, pb)) { errno = EXDEV; return -1; }
+  return real_renameat2(fda, pa, fdb, pb, flags);
 }
